@@ -83,20 +83,27 @@ def build(job):
     m.st(x >= -xb, x <= xb)
     robust_default = p['osense'] in ('minmax', 'maxmin')
     obj = expr(rec['objT'])
-    if p['osense'] == 'min':
-        m.min(obj)
-    elif p['osense'] == 'max':
-        m.max(obj)
-    elif p['osense'] == 'minmax':
-        if var % 2:
-            m.minmax(obj, *uset(p['dset']))
+    def set_objective():
+        if p['osense'] == 'min':
+            m.min(obj)
+        elif p['osense'] == 'max':
+            m.max(obj)
+        elif p['osense'] == 'minmax':
+            if var % 2:
+                m.minmax(obj, *uset(p['dset']))
+            else:
+                m.minmax(obj, uset(p['dset']))
         else:
-            m.minmax(obj, uset(p['dset']))
-    else:
-        if var % 2:
-            m.maxmin(obj, uset(p['dset']))
-        else:
-            m.maxmin(obj, *uset(p['dset']))
+            if var % 2:
+                m.maxmin(obj, uset(p['dset']))
+            else:
+                m.maxmin(obj, *uset(p['dset']))
+
+
+    # build order: the objective (and with it the default set) is declared before the rows, between them, or last
+    obj_pos = (var // 2) % 3
+    if obj_pos == 0:
+        set_objective()
 
     def attach(c, s):
         if s == 0 and robust_default:
@@ -135,7 +142,9 @@ def build(job):
         (r1, t1), (r2, t2) = rows
         assert r1['sense'] == r2['sense'] and r1['set'] == r2['set']
         rows = [(r1, [t1, t2])]
-    for r, tm in rows:
+    for ri, (r, tm) in enumerate(rows):
+        if ri == 1 and obj_pos == 1:
+            set_objective()
         if isinstance(tm, list) and var % 3 == 2 and r['sense'] in ('le', 'ge'):
             # the same two rows spelled as ONE piecewise constraint with an added term (maxof / minof front end):
             #   L1 >= 0 and L2 >= 0   <=>   minof(L1 - c, L2 - c) + c >= 0   <=>   c - maxof(c - L1, c - L2) >= 0
@@ -159,9 +168,13 @@ def build(job):
         if isinstance(c, RoConstr):
             c = attach(c, r['set'])
         m.st(c)
+    if obj_pos == 1 and len(rows) < 2:
+        set_objective()
     if y is not None:
         for c in (y <= xb, y >= -xb):
             m.st(attach(c, 0) if isinstance(c, RoConstr) else c)
+    if obj_pos == 2:
+        set_objective()
     return m, dict(x=x, y=y, z=z, u=u, mask=mask, piecewise_rows=npw[0])
 
 
